@@ -870,6 +870,20 @@ func (e *Env) call(x *Expr) Val {
 			fail("mapcells() needs a map")
 		}
 		return Val{Addr: b.T, MapCells: true, GoT: b.GoT}
+	case "addr":
+		// addr(x): the address of the variable, field or element x (what &x yields in the program)
+		if len(x.Args) != 1 {
+			fail("usage: addr(<lvalue>)")
+		}
+		v := e.tr(x.Args[0])
+		if !v.isLv() || v.Addr == "" || v.GKind != "" || v.Win != nil || v.MapCells || v.Root {
+			fail("addr() needs a variable that lives in memory, a field or a slice element")
+		}
+		var pt types.Type
+		if v.GoT != nil {
+			pt = types.NewPointer(v.GoT)
+		}
+		return Val{T: v.Addr, Sort: "Loc", GoT: pt}
 	case "objof":
 		// objof(x): identity of the allocated object a pointer or slice refers to
 		b := e.rv(e.tr(x.Args[0]))
